@@ -348,7 +348,7 @@ func c03Rec(c *Ctx, r *Report) {
 			}
 		}
 		for _, e := range sc.edges {
-			if e.class != "DEC" {
+			if e.class != "DEC" && e.class != "VISITED" {
 				continue
 			}
 			sel := followsReference(c, eng, e.from, e.to, e.site)
@@ -359,6 +359,14 @@ func c03Rec(c *Ctx, r *Report) {
 			}
 			ekey := fmt.Sprintf("reference call %s -> %s through %s", fnName(e.from), fnName(e.to), sel)
 			vis := visitedGuarded(e.from, e.to, e.site)
+			if vis && fanOut && setShrinks(e.from, e.site) {
+				// an "active path" set (entry deleted when the walk returns) stops cycles but not sharing: a definition
+				// reached along k paths is walked k times, which is exponential for a chain of definitions that each
+				// refer to the next one twice
+				r.add("C03.EXPO", ekey, e.site.Pos(), Violated,
+					"the set that guards the call through "+sel+" is an active-path set (entries are deleted again after the call): it cuts cycles, but a definition shared by k referrers is still walked once per path - `fragment F0 {...F1 ...F1} fragment F1 {...F2 ...F2} ...` costs 2^n walks for n fragments")
+				continue
+			}
 			r.add("C03.EXPO", ekey, e.site.Pos(), map[bool]Status{true: Discharged, false: Violated}[vis || !fanOut],
 				"the call follows "+sel+" back into a recursion that fans out and is bounded by a depth counter only: a definition that refers to itself (or to a shared definition) k times at every level is expanded k^depth times - `fragment A on Query { title ...A ...A }` does not return in any useful time")
 		}
